@@ -93,26 +93,35 @@ class StatePairs(Harness):
                                        expected=exp, observed=got, cls=cls,
                                        input={"a": [sorted(map(list, facts)), {str(k): v for k, v in fluents.items()}], "b": [sorted(map(list, of)), {str(k): v for k, v in ol.items()}], "reversed": rev}))
                     break
-        # copy: equal, independent
-        c = s.copy()
-        self.cases += 1
-        if not (c == s) or V.v_state(c) != V.v_state(s):
-            out.append(Failure(clause="copy() equals the original", expected=str(V.v_state(s)), observed=str(V.v_state(c))))
-        before = V.v_state(s)
-        for bucket in c.state_predicates.values():
-            for g in list(bucket):
-                g.is_positive = False      # attribute assignments the library itself performs on copies
-                g.name = "renamed"
-            bucket.clear()
-        c.state_predicates["(new )"] = set()
-        for f in c.state_fluents.values():
-            f.set_value(99.0)
-        c.state_fluents.clear()
-        c.is_init = not c.is_init
-        if V.v_state(s) != before:
-            out.append(Failure(clause="mutating a copy (its dicts, buckets, member literals, fluent objects) leaves the original unchanged",
-                               expected=str(before), observed=str(V.v_state(s)),
-                               cls=None))
+        # copy: equal, independent — for the state as parsed and for the variant that carries empty buckets (states reached through deletes)
+        for s in (s, _build(dom, facts, fluents, reverse=True)):
+            c = s.copy()
+            self.cases += 1
+            if not (c == s) or V.v_state(c) != V.v_state(s):
+                out.append(Failure(clause="copy() equals the original", expected=str(V.v_state(s)), observed=str(V.v_state(c))))
+            before = V.v_state(s)
+            from pddl_plus_parser.models import GroundedPredicate as _GP
+            for bucket in c.state_predicates.values():
+                # growing a bucket of the copy (also one that was empty when copied: successor states are built this way)
+                bucket.add(_GP(name="zz-added", signature={}, object_mapping={}))
+            if V.v_state(s) != before:
+                out.append(Failure(clause="adding a fact to a bucket of the copy (also an empty one) leaves the original unchanged",
+                                   expected=str(before), observed=str(V.v_state(s)), cls=None))
+            for bucket in c.state_predicates.values():
+                for g in list(bucket):
+                    g.is_positive = False      # attribute assignments the library itself performs on copies
+                    g.name = "renamed"
+                bucket.clear()
+            c.state_predicates["(new )"] = set()
+            for f in c.state_fluents.values():
+                f.set_value(99.0)
+            c.state_fluents.clear()
+            c.is_init = not c.is_init
+            if V.v_state(s) != before:
+                out.append(Failure(clause="mutating a copy (its dicts, buckets, member literals, fluent objects) leaves the original unchanged",
+                                   expected=str(before), observed=str(V.v_state(s)),
+                                   cls=None))
+        s = _build(dom, facts, fluents)
         # serialization round trip
         txt = s.serialize()
         r = RA.outcome(lambda: TrajectoryParser(dom).parse_state(PDDLTokenizer(pddl_str=txt).parse()[1:]))
